@@ -2157,8 +2157,29 @@ func identityListsUntouchedRun() string {
 	return "sound"
 }
 
+// "however nested": the smallest lifetime limit is found at any depth of conditionals (1, 5, 100, 101, 150, 400)
+func deepMaxValidityRun() string {
+	for _, depth := range []int{1, 5, 100, 101, 150, 400} {
+		mv := auth.MaxValidity(60)
+		var inner macaroon.Caveat = &mv
+		for i := 0; i < depth; i++ {
+			inner = &resset.IfPresent{Ifs: macaroon.NewCaveatSet(inner), Else: resset.ActionAll}
+		}
+		top := auth.MaxValidity(3600)
+		cs := macaroon.NewCaveatSet(&top, inner)
+		if d, ok := auth.GetMaxValidity(cs); !ok || d != 60*time.Second {
+			return fmt.Sprintf("limit-nested-%d-deep-not-found:%v", depth, d)
+		}
+		if n := len(macaroon.GetCaveats[*auth.MaxValidity](cs)); n != 2 {
+			return fmt.Sprintf("typed-lookup-misses-a-caveat-nested-%d-deep", depth)
+		}
+	}
+	return "sound"
+}
+
 func famAuthcav(r *Rng, o *Out, tier string) {
 	o.emit("(const sound)", identityListsUntouchedRun())
+	o.emit("(const sound)", deepMaxValidityRun())
 	n := 8000
 	if tier == "thorough" {
 		n = 300000
